@@ -28,4 +28,12 @@ func c05(c *Ctx) {
 	// a PID handed out twice silently replaces a stream's context and restarts its counter
 	muxstate.AutoPID(c.P, r, muxstate.RuleAutoPID)
 	muxstate.IncSites(c.P, r)
+	// a stream's counter lives as long as the stream stays added: contexts are created by AddElementaryStream for the added
+	// PID and removed by RemoveElementaryStream only (rebuilding the map would restart the counters of the other streams)
+	extrarules.WhoMayCall(c.P, r, "CC-ctx", "newEsContext/called-from", "newEsContext", []string{"(*Muxer).AddElementaryStream"}, 1,
+		"a context created anywhere else restarts the continuity counter of a stream that stays added")
+	extrarules.WhoMayMutateMapField(c.P, r, "CC-ctx", "Muxer.esContexts/mutated-by", "Muxer", "esContexts", []string{"(*Muxer).AddElementaryStream"}, []string{"(*Muxer).RemoveElementaryStream"}, 1, 1,
+		"the per-PID counter contexts are inserted by AddElementaryStream and deleted by RemoveElementaryStream only")
+	extrarules.WhoMayStoreField(c.P, r, "CC-ctx", "Muxer.esContexts/stored-by", "Muxer", "esContexts", []string{"NewMuxer"}, 1, nil, "stores",
+		"replacing the context map restarts every stream's continuity counter")
 }
